@@ -142,4 +142,31 @@ def rule_gate(ctx):
                   'the newer-check compares against this publication point\'s StoredPoint', 'newer-check on a different store', loc=s.loc())
 
 
-RULES = [rule_table, rule_gate]
+def rule_cached_values(ctx):
+    """The values check_collected_is_newer compares against are the stored manifest's OWN number and thisUpdate."""
+    from lib.rules import agg_sites
+    from lib.tables import describe
+    b = ctx.body('store::StoredManifest::new')
+    lits = agg_sites(b, 'store::StoredManifest')
+    ctx.floor('prov', 'StoredManifest literal in StoredManifest::new', len(lits), 1)
+    want = {
+        'manifest_number': r'^call:ManifestContent::manifest_number\(manifest\)$',
+        'this_update': r'^call:ManifestContent::this_update\(manifest\)$',
+        'manifest': r'^manifest_bytes$',
+    }
+    import re as _re
+    for l in lits:
+        rv = l.stmt['rv']
+        for f, rx in want.items():
+            d = describe(b.origin_of_operand(rv['ops'][rv['names'].index(f)]))
+            ctx.check(bool(_re.match(rx, d)), 'prov', 'StoredManifest::new:%s' % f,
+                      'the cached %s is taken from the manifest itself (%s)' % (f, d),
+                      'StoredManifest::new caches %s = `%s` instead of the manifest\'s own value: check_collected_is_newer compares '
+                      'fetched manifests against the cached number/thisUpdate and treats a stored copy whose cached values differ from '
+                      'its manifest as broken - a replayed or older manifest then displaces the newer stored point' % (f, d), loc=l.loc())
+    # and the header fields are only written by new()
+    from lib.rules import who_calls
+    who_calls(ctx, 'K3', 'store::StoredManifest::new', ['engine::PubPoint::process_collected'], floor=1)
+
+
+RULES = [rule_table, rule_gate, rule_cached_values]
